@@ -1,14 +1,14 @@
 SPECIFICATION Spec
 CONSTANTS
-  PD = 4
+  PD = 16
   NP = 2
   Kind <- Kind2
-  MaxKf = 2
-  NE = 2
+  MaxKf = 12
+  NE = 3
   EasePool <- EasesA
   TimingPool <- TimingsA
   Seed = 1
   PosPool <- AllPos
-  NRand = 0
+  NRand = 120
 INVARIANT Emit
 CHECK_DEADLOCK FALSE
